@@ -20,8 +20,9 @@ def recurrence_abc(n, alpha, beta):
     i.e. to get a(n-1), do recurrence_abc(n-1)
 
     """
-    aplusb = alpha+beta
-    if n == 0 and (aplusb == 0 or aplusb == -1):
+    if n == 0:
+        # the general expressions reduce to these for n = 0; as written below they are 0/0 for alpha+beta in {0, -1}
+        # and cancel catastrophically when alpha+beta is only a rounding error away from 0 (0.1 + 0.2 - 0.3)
         A = 1/2 * (alpha + beta) + 1
         B = 1/2 * (alpha - beta)
         C = 1
